@@ -421,3 +421,43 @@ def run(chk):
         if n < 2:
             chk.inconc("R9", f"only {n} optional-member look-aheads found in attr.rs (2 confirmed by hand: AsAttr::parse, try_parse_optional_ident)")
     chk.guard("R9", r9)
+
+    def r10():
+        # the member a field stands for: its declaration position and its name (or, for tuple fields, the index equal to that position)
+        from ..tables import AST, IMPL_FILES
+        from ..pe import Evaluator, StructV, Tag, explore, vkey
+        repo = chk.repo
+        chk.rule("R10", "Field::from_syn: idx = declaration position; member = the field's ident, or Index(position) for tuple fields; member_str printed from that member", floor=2)
+        fi = repo.fn(AST, "from_syn", impl="Field")
+        ip = [p_ for p_ in fi.params if re.search(r"idx|index|pos|^i$", p_)]
+        if len(ip) != 1:
+            raise Inconclusive("Field::from_syn: position parameter not identifiable among " + str(fi.params))
+        ip = ip[0]
+        n = 0
+        for lf in explore(lambda: Evaluator(repo, IMPL_FILES, shallow=True), lambda ev: ev.run_fn(fi, ev.sym_params(fi))):
+            if lf.panic or lf.unsupported:
+                chk.inconc("R10", f"Field::from_syn not evaluable: {lf.panic or lf.unsupported}")
+                continue
+            v = lf.value.args[0] if isinstance(lf.value, Tag) and lf.value.name == "Ok" and lf.value.args else lf.value
+            if not isinstance(v, StructV):
+                chk.inconc("R10", "Field::from_syn does not return a struct literal: " + vkey(lf.value)[:80])
+                continue
+            named = any(val == "Some" for a, val in lf.decisions.items() if ".ident" in a)
+            f_ = {k_: vkey(x) for k_, x in v.fields.items()}
+            key = f"Field::from_syn[{'named' if named else 'tuple'}]"
+            if key in {i_.key for i_ in chk.instances if i_.rule == "R10"}:
+                continue
+            n += 1
+            idx_ok = f_.get("idx") == ip
+            if named:
+                mem_ok = ".ident" in f_.get("member", "")
+                mem_bad = "Unnamed(" in f_.get("member", "")
+            else:
+                mem_ok = re.fullmatch(r"Unnamed\(Index\{index: " + re.escape(ip) + r"(, span: [^}]*)?\}\)", f_.get("member", "")) is not None
+                mem_bad = f_.get("member", "").startswith("Unnamed(Index{index:") and not mem_ok
+            str_ok = ("member" not in f_) or ip in f_.get("member_str", "") or ".ident" in f_.get("member_str", "")
+            chk.shape("R10", key, idx_ok and mem_ok and str_ok, (f_.get("idx") not in (None, ip)) or mem_bad, AST, fi.line,
+                      what="a field's position / member does not denote the field itself (off-by-one index, wrong member for the name)", expected={"idx": ip}, found=f_)
+        if n < 2:
+            chk.inconc("R10", f"only {n} shapes of Field::from_syn evaluated")
+    chk.guard("R10", r10)
